@@ -223,6 +223,8 @@ def WellFormedOp (m : M) : Op → Prop
   | .vforkExec _ slot orig _ eorig =>
     (∀ f ∈ m.fs, slot < f.slot) ∧ isTramp orig = false ∧ isTramp eorig = false ∧ m.sh.inExc = false
   | .mtdDtor => m.sh.inExc = false ∧ ∀ f ∈ m.fs, f.chain = []
+  | .fork _ _ slot orig => (∀ f ∈ m.fs, slot < f.slot) ∧ isTramp orig = false ∧ m.sh.inExc = false
+  | .exec _ slot orig => (∀ f ∈ m.fs, slot < f.slot) ∧ isTramp orig = false ∧ m.sh.inExc = false
 
 end Uft.NonLocal
 
@@ -1479,6 +1481,17 @@ theorem plthookEntry_longjmp {s : Sh} (h : s.inExc = false) (loc child j : Nat) 
                 fun e => { e with c := { e.c with ljmp := true }, jb := j } } := by
   simp [plthookEntry, h, Sym.flushes, pltSpecial]
 
+theorem plthookEntry_vfork {s : Sh} (h : s.inExc = false) (loc child : Nat) :
+    plthookEntry Fix.all s loc child .vfork 0 =
+      prepareVfork { (pushHook s loc child true).record false with
+        rs := setTop ((pushHook s loc child true).record false).rs
+                fun e => { e with c := { e.c with vfork := true } } } := by
+  simp [plthookEntry, h, Sym.flushes, pltSpecial]
+
+theorem plthookEntry_flush {s : Sh} (h : s.inExc = false) (loc child : Nat) :
+    plthookEntry Fix.all s loc child .flush 0 = (pushHook s loc child true).record false := by
+  simp [plthookEntry, h, Sym.flushes, pltSpecial]
+
 def markWritten (l : List Ent) : List Ent := l.map (fun e => { e with written := true })
 
 theorem markWritten_c (l : List Ent) : (markWritten l).map Ent.c = l.map Ent.c := by
@@ -1903,6 +1916,82 @@ end Uft.NonLocal
 
 namespace Uft.NonLocal
 
+/-! ### fork and exec -/
+
+theorem inv_child_flag {m : M} (hi : Inv m) (b : Bool) (p : Nat) :
+    Inv { m with sh := { m.sh with child := b, pid := p } } :=
+  ⟨hi.nh, hi.nd, hi.vf, hi.ctl, hi.sorted, hi.origs, hi.memOk, hi.top, hi.exc,
+    fun j jb hj => jbOk_of_jbs rfl (hi.jb j jb hj)⟩
+
+/-- fork@plt and its return, in the parent and in the child (which owns a copy of everything) -/
+theorem inv_fork {m : M} (hi : Inv m) {inChild : Bool} {child slot orig : Nat}
+    (hw : WellFormedOp m (.fork inChild child slot orig)) :
+    Inv (step Fix.all m (.fork inChild child slot orig)) ∧
+    (step Fix.all m (.fork inChild child slot orig)).last = orig := by
+  obtain ⟨hlt, hor, hx⟩ := hw
+  obtain ⟨a1, a2, a3⟩ := inv_push_plt (child := child) hi hlt hor hx
+  let s1 := (pushHook (progStore m.sh slot orig) slot child true).record false
+  let F : Frame := ⟨slot, orig, [⟨child, true⟩]⟩
+  let m1 : M := { m with fs := F :: m.fs, sh := forkSide inChild s1 }
+  have hpe : plthookEntry Fix.all (progStore m.sh slot orig) slot child .flush 0 = s1 :=
+    plthookEntry_flush (s := progStore m.sh slot orig) hx slot child
+  have hs1 : Inv { m with fs := F :: m.fs, sh := s1 } := by
+    refine ⟨hi.nh, by simpa [s1] using hi.nd, by simpa [s1] using hi.vf,
+      ⟨[], by simpa [s1] using a1, fun _ => rfl⟩,
+      List.pairwise_cons.mpr ⟨fun g hg => hlt g hg, hi.sorted⟩, ?_, ?_, ?_, ?_, ?_⟩
+    · intro f hf
+      rcases List.mem_cons.mp hf with rfl | hf'
+      · exact hor
+      · exact hi.origs f hf'
+    · show MemOk (F :: m.fs) s1.mem
+      simp only [s1, record_mem]; exact a2
+    · intro _
+      show TopOk (F :: m.fs) s1.mem
+      simp only [s1, record_mem]; exact a3
+    · intro h; simp [s1, hx] at h
+    · intro j jb hj
+      exact jbOk_of_jbs (by simp [s1]) (hi.jb j jb hj)
+  have hi1 : Inv m1 := by
+    cases inChild with
+    | false => exact hs1
+    | true => exact inv_child_flag hs1 true (s1.pid + 1)
+  have hstep : step Fix.all m (.fork inChild child slot orig) = step Fix.all m1 .ret := by
+    have h1 : step Fix.all m1 .ret = _ := step_ret_eq Fix.all (m := m1) hi.nh (f := F) (fs := m.fs) rfl
+    have e1 : step Fix.all m (.fork inChild child slot orig) =
+        { m with
+          sh := (retLoop ((forkSide inChild (plthookEntry Fix.all (progStore m.sh slot orig) slot child .flush 0)).rs.length + 1)
+                  (forkSide inChild (plthookEntry Fix.all (progStore m.sh slot orig) slot child .flush 0))
+                  ((forkSide inChild (plthookEntry Fix.all (progStore m.sh slot orig) slot child .flush 0)).mem slot)).1
+          last := (retLoop ((forkSide inChild (plthookEntry Fix.all (progStore m.sh slot orig) slot child .flush 0)).rs.length + 1)
+                  (forkSide inChild (plthookEntry Fix.all (progStore m.sh slot orig) slot child .flush 0))
+                  ((forkSide inChild (plthookEntry Fix.all (progStore m.sh slot orig) slot child .flush 0)).mem slot)).2 } := by
+      simp only [step, hi.nh, Bool.false_eq_true, ↓reduceIte]
+      rfl
+    rw [e1, h1, hpe]
+  rw [hstep]
+  have hx1 : m1.sh.inExc = false := by
+    cases inChild <;> simp [m1, forkSide, s1, hx]
+  exact ret_spec hi1 ⟨by simp [m1], fun h => by rw [hx1] at h; cases h⟩ rfl
+
+/-- exec: whatever the shadow stack held is gone with the process image; the new image starts in step -/
+theorem inv_exec {m : M} (hi : Inv m) (child slot orig : Nat) : Inv (step Fix.all m (.exec child slot orig)) := by
+  have hstep : step Fix.all m (.exec child slot orig) =
+      { M.init with
+        sh := { Sh.init with
+                out := (plthookEntry Fix.all (progStore m.sh slot orig) slot child .flush 0).out,
+                pid := (plthookEntry Fix.all (progStore m.sh slot orig) slot child .flush 0).pid,
+                child := (plthookEntry Fix.all (progStore m.sh slot orig) slot child .flush 0).child },
+        last := m.last } := by
+    simp only [step, hi.nh, Bool.false_eq_true, ↓reduceIte]
+    rfl
+  rw [hstep]
+  exact ⟨rfl, rfl, rfl, ⟨[], rfl, fun _ => rfl⟩, List.Pairwise.nil, (fun _ h => by cases h), (fun _ h => by cases h),
+    (fun _ => TopOk_of_nil (fs := []) rfl), (fun _ _ h => by cases h), (fun _ _ h => by cases h)⟩
+
+end Uft.NonLocal
+
+namespace Uft.NonLocal
+
 /-! ### TraceInv along machine steps -/
 
 /-- ops after which nothing is claimed about record depths: the thread or process ends
@@ -1968,6 +2057,20 @@ theorem trace_step {m : M} (hi : Inv m) (ht : TraceInv m.sh) {op : Op} (hw : Wel
   | pthreadExit child slot orig => simp [Op.noDepthClaim] at hnt
   | exit child slot orig => simp [Op.noDepthClaim] at hnt
   | vforkExec a b c d e => simp [Op.noDepthClaim] at hnt
+  | fork inChild child slot orig =>
+    simp only [step, hi.nh, Bool.false_eq_true, ↓reduceIte]
+    have h0 : TraceInv { m.sh with mem := upd m.sh.mem slot orig } := ht.of_eq rfl rfl rfl
+    have h1 := trace_plthookEntry Fix.all h0 slot child .flush 0
+    have hvf : (plthookEntry Fix.all { m.sh with mem := upd m.sh.mem slot orig } slot child .flush 0).vf = none := by
+      rw [show ({ m.sh with mem := upd m.sh.mem slot orig } : Sh) = progStore m.sh slot orig from rfl,
+        plthookEntry_flush (s := progStore m.sh slot orig) hw.2.2]
+      simpa using hi.vf
+    cases inChild with
+    | false => exact (trace_retLoop _ _ _ h1 hvf).1
+    | true => exact (trace_retLoop _ _ _ (h1.of_eq (t := forkSide true _) rfl rfl rfl) hvf).1
+  | exec child slot orig =>
+    simp only [step, hi.nh, Bool.false_eq_true, ↓reduceIte]
+    exact ⟨rfl, rfl, fun _ _ _ h => by cases h⟩
   | mtdDtor =>
     -- nothing is hooked any more: the shadow stack is already empty
     have hi' := inv_mtdDtor hi hw
@@ -2018,13 +2121,13 @@ theorem rstep_coherent {r : RSt} {c : CSt} {x : RRec} (h : RInv r c) (hc : cok c
     | plain =>
       simp only [rstep, cnext, ht, ↓reduceIte, hk]
       refine ⟨⟨by split <;> simp_all, ?_, ?_, ?_⟩, hdd0⟩
-      · intro _; simp only []; rw [hdd0]
+      · intro _; simp only []; rw [hdd0]; simp
       · intro d hd; simp at hd; simp only []; rw [htab0]; exact htab d hd
       · simp; split <;> simp_all
     | setjmp =>
       simp only [rstep, cnext, ht, ↓reduceIte, hk]
       refine ⟨⟨by split <;> simp_all, ?_, ?_, ?_⟩, hdd0⟩
-      · intro _; simp only []; rw [hdd0]
+      · intro _; simp only []; rw [hdd0]; simp
       · intro d hd
         simp only [↓reduceIte] at hd
         by_cases hdx : d = x.depth
@@ -2035,9 +2138,15 @@ theorem rstep_coherent {r : RSt} {c : CSt} {x : RRec} (h : RInv r c) (hc : cok c
     | longjmp =>
       simp only [rstep, cnext, ht, ↓reduceIte, hk]
       refine ⟨⟨by split <;> simp_all, ?_, ?_, ?_⟩, hdd0⟩
-      · intro _; simp only []; rw [hdd0]
+      · intro _; simp only []; rw [hdd0]; simp
       · intro d hd; simp at hd; simp only []; rw [htab0]; exact htab d hd
       · simp
+    | exec =>
+      simp only [rstep, cnext, ht, ↓reduceIte, hk]
+      refine ⟨⟨by split <;> simp_all, ?_, ?_, ?_⟩, hdd0⟩
+      · intro _; rfl
+      · intro d hd; simp at hd; simp only []; rw [htab0]; exact htab d hd
+      · simp; split <;> simp_all
   · have hcur : (if r.set = true then r else { r with dd := x.depth + 1, set := true }).dd =
         (if c.started = true then c.cur else x.depth + 1) := by
       rw [hset]
@@ -2077,6 +2186,105 @@ theorem rrun_coherent : ∀ (l : List RRec) (r : RSt) (c : CSt), RInv r c → co
       obtain ⟨h', hd⟩ := rstep_coherent h hk
       simp only [rrun, List.map_cons, hd]
       rw [ih _ _ h' hc]
+    · simp [hk] at hc
+
+/-! ### replay as it is (one global setjmp_depth) on streams whose longjmps land in the latest setjmp -/
+
+structure RInvA (r : RSt) (c : CSt) : Prop where
+  set : r.set = c.started
+  dd : c.started = true → c.afterLj = false → r.dd = c.cur
+  lj : c.afterLj = true → ∀ d, c.lastSj = some d → r.dd = d + 1
+  last : ∀ d, c.lastSj = some d → r.last = d + 1
+
+theorem rstep_asis {r : RSt} {c : CSt} {x : RRec} (h : RInvA r c) (hc : cok c x = true)
+    (hl : latestOk c x = true) :
+    RInvA (rstep false r x).1 (cnext c x) ∧ (rstep false r x).2 = x.depth := by
+  obtain ⟨hset, hdd, hlj, hlast⟩ := h
+  by_cases ht : x.typ = 0
+  · simp only [cok, ht, ↓reduceIte, Bool.and_eq_true, Bool.not_eq_true', beq_iff_eq] at hc
+    obtain ⟨haf, hdep⟩ := hc
+    have hdd0 : (if r.set = true then r else { r with dd := x.depth, set := true }).dd = x.depth := by
+      rw [hset]
+      by_cases hs : c.started = true
+      · simp only [hs, ↓reduceIte] at hdep ⊢
+        rw [hdd hs haf, ← hdep]
+      · simp [hs]
+    have hlast0 : (if r.set = true then r else { r with dd := x.depth, set := true }).last = r.last := by
+      split <;> rfl
+    cases hk : x.kind with
+    | plain =>
+      simp only [rstep, cnext, ht, ↓reduceIte, hk]
+      refine ⟨⟨by split <;> simp_all, ?_, ?_, ?_⟩, hdd0⟩
+      · intro _ _; simp only []; rw [hdd0]; simp
+      · intro h; simp at h
+      · intro d hd; simp at hd; simp only []; rw [hlast0]; exact hlast d hd
+    | setjmp =>
+      simp only [rstep, cnext, ht, ↓reduceIte, hk]
+      refine ⟨⟨by split <;> simp_all, ?_, ?_, ?_⟩, hdd0⟩
+      · intro _ _; simp only []; rw [hdd0]; simp
+      · intro h; simp at h
+      · intro d hd
+        simp only [↓reduceIte, Option.some.injEq] at hd
+        subst hd
+        simp only []; rw [hdd0]
+    | longjmp =>
+      simp only [rstep, cnext, ht, ↓reduceIte, hk]
+      refine ⟨⟨by simp only [Bool.false_eq_true, ↓reduceIte]; split <;> simp_all, ?_, ?_, ?_⟩, hdd0⟩
+      · intro _ h; simp at h
+      · intro _ d hd
+        simp at hd
+        simp only [Bool.false_eq_true, ↓reduceIte]
+        rw [hlast0]; exact hlast d hd
+      · intro d hd; simp at hd; simp only [Bool.false_eq_true, ↓reduceIte]; rw [hlast0]; exact hlast d hd
+    | exec =>
+      simp only [rstep, cnext, ht, ↓reduceIte, hk]
+      refine ⟨⟨by split <;> simp_all, ?_, ?_, ?_⟩, hdd0⟩
+      · intro _ _; rfl
+      · intro h; simp at h
+      · intro d hd; simp at hd; simp only []; rw [hlast0]; exact hlast d hd
+  · have hset0 : (if r.set = true then r else { r with dd := x.depth + 1, set := true }).set = true := by
+      split <;> simp_all
+    have hlast0 : (if r.set = true then r else { r with dd := x.depth + 1, set := true }).last = r.last := by
+      split <;> rfl
+    by_cases haf : c.afterLj = true
+    · simp only [latestOk, ht, haf, ne_eq, not_false_eq_true, and_self, ↓reduceIte, beq_iff_eq] at hl
+      have hcur : (if r.set = true then r else { r with dd := x.depth + 1, set := true }).dd = x.depth + 1 := by
+        split
+        · exact hlj haf x.depth hl
+        · rfl
+      simp only [rstep, cnext, ht, ↓reduceIte, Bool.false_and, Bool.false_eq_true, hcur]
+      refine ⟨⟨by simpa using hset0, ?_, ?_, ?_⟩, by simp⟩
+      · intro _ _; simp
+      · intro h; simp at h
+      · intro d hd; simp only []; rw [hlast0]; exact hlast d hd
+    · have haf' : c.afterLj = false := by simpa using haf
+      simp only [cok, ht, ↓reduceIte, haf', Bool.false_eq_true, beq_iff_eq] at hc
+      have hcur : (if r.set = true then r else { r with dd := x.depth + 1, set := true }).dd =
+          (if c.started = true then c.cur else x.depth + 1) := by
+        rw [hset]
+        by_cases hs : c.started = true
+        · simp only [hs, ↓reduceIte]; exact hdd hs haf'
+        · simp [hs]
+      simp only [rstep, cnext, ht, ↓reduceIte, Bool.false_and, Bool.false_eq_true, hcur]
+      refine ⟨⟨by simpa using hset0, ?_, ?_, ?_⟩, by omega⟩
+      · intro _ _; show _ - 1 = x.depth; omega
+      · intro h; simp at h
+      · intro d hd; simp only []; rw [hlast0]; exact hlast d hd
+
+theorem rrun_asis : ∀ (l : List RRec) (r : RSt) (c : CSt), RInvA r c → coherent c l = true →
+    latestOnly c l = true → rrun false r l = l.map (·.depth) := by
+  intro l
+  induction l with
+  | nil => intro r c _ _ _; rfl
+  | cons x xs ih =>
+    intro r c h hc hl
+    simp only [coherent, cstep] at hc
+    simp only [latestOnly, Bool.and_eq_true] at hl
+    by_cases hk : cok c x = true
+    · simp only [hk, ↓reduceIte] at hc
+      obtain ⟨h', hd⟩ := rstep_asis h hk hl.1
+      simp only [rrun, List.map_cons, hd]
+      rw [ih _ _ h' hc hl.2]
     · simp [hk] at hc
 
 end Uft.NonLocal
@@ -2222,17 +2430,6 @@ theorem plthookExit_vfork_parent {s : Sh} {e : Ent} {r : List Ent} {v : VSave} (
   have hd : List.drop (r.length + 1 - (v.idx - 1)) (e :: r) = r := by
     rw [hidx]; simp
   simp [plthookExit, plthookExitCore, hr, hl, hvk, hvf, restoreVfork, hpid, hle, hd, hp]
-
-theorem plthookEntry_vfork {s : Sh} (h : s.inExc = false) (loc child : Nat) :
-    plthookEntry Fix.all s loc child .vfork 0 =
-      prepareVfork { (pushHook s loc child true).record false with
-        rs := setTop ((pushHook s loc child true).record false).rs
-                fun e => { e with c := { e.c with vfork := true } } } := by
-  simp [plthookEntry, h, Sym.flushes, pltSpecial]
-
-theorem plthookEntry_flush {s : Sh} (h : s.inExc = false) (loc child : Nat) :
-    plthookEntry Fix.all s loc child .flush 0 = (pushHook s loc child true).record false := by
-  simp [plthookEntry, h, Sym.flushes, pltSpecial]
 
 theorem inv_vforkExec {m : M} (hi : Inv m) {child slot orig echild eorig : Nat}
     (hw : WellFormedOp m (.vforkExec child slot orig echild eorig)) :
